@@ -818,7 +818,8 @@ def c01_r5_cow(ctx):
     }
     for u in ctx.facts.unsafe_blocks:
         o = u['owner']
-        if '::xxh3::' in o:
+        if '::xxh3::' in o or 'sync::spin::' in o:
+            # hashing kernels (SIMD intrinsics) and the no_std spin-lock guards: neither touches page buffers
             ctx._ob(True)
             continue
         okk = any(core.name_matches(a, core.alt_names(o)) for a in allowed)
@@ -826,7 +827,7 @@ def c01_r5_cow(ctx):
         if not okk:
             ctx.violate('new-unsafe|%s' % o, 'new unsafe block in `%s` at %s:%s -- confirm it cannot alias committed page bytes mutably and add it to the table' % (o, u['f'], u['l']))
     for f in ctx.facts.fn_list:
-        if f.d.get('unsafe') and '::xxh3::' not in f.path:
+        if f.d.get('unsafe') and '::xxh3::' not in f.path and 'sync::spin::' not in f.path:
             ctx.check(False, 'new-unsafe-fn|%s' % f.path, 'new unsafe fn `%s`' % f.path, f, f.line)
 
 
@@ -2685,7 +2686,8 @@ def c06_r1_freed_merged(ctx):
         ie = [c for c in f.calls if c.matches('Vec::is_empty')]
         ctx.check(len(ie) == 1 and any('m:assert' in x for x in (ie[0].t.get('x') or [])) or len(ie) == 1, 'floor|%s|assert-empty' % f.path, 'insert_inplace asserts that nothing was freed', f, f.line)
     # cursor family
-    for nm in ('RangeMut::with_live_cursor',):
+    cur_fns = ['RangeMut::with_live_cursor'] + (['BtreeCursorMut::with_cursor'] if ctx.has_fn('BtreeCursorMut::with_cursor') else [])
+    for nm in cur_fns:
         f = ctx.fn(nm)
         if f is not None:
             c = ctx.sites(f, 'CursorTree::cursor', exact=1)
@@ -2694,7 +2696,7 @@ def c06_r1_freed_merged(ctx):
     f = ctx.fn('CursorTree::drain_freed')
     if f is not None:
         fu = ctx.sites(f, PA + '::free_if_uncommitted', floor=0)
-    ctx.callers_eq('CursorTree::cursor', {'RangeMut::seek_end', 'RangeMut::with_live_cursor'})
+    ctx.callers_eq('CursorTree::cursor', {'RangeMut::seek_end', 'RangeMut::with_live_cursor', 'BtreeCursorMut::with_cursor'}, allow_missing={'BtreeCursorMut::with_cursor'})
 
 
 def c06_r7_multimap(ctx):
@@ -2762,7 +2764,7 @@ NEST_TABLE = {
     ('Vec<PageNumber>', 'SystemNamespace'): 'only in restore_savepoint_inner (&mut self, exclusive)',
     ('Vec<PageNumber>', 'UnpersistedState'): 'freed pages list -> TM.unpersisted',
 }
-DEBUG_CLASSES = ('HashSet<PageNumber', 'HashMap<PageNumber')  # debug-assertion bookkeeping sets
+DEBUG_CLASSES = ('HashSet<PageNumber', 'HashMap<PageNumber', 'BTreeSet<PageNumber', 'BTreeMap<PageNumber')  # debug-assertion bookkeeping sets (hash based with std, BTree based without)
 EXCLUSIVE_ONLY = {
     ('SystemNamespace', 'TableNamespace'): {'WriteTransaction::durable_commit', 'WriteTransaction::store_data_freed_pages_for'},
     ('Vec<PageNumber>', 'SystemNamespace'): {'WriteTransaction::restore_savepoint_inner'},
@@ -2839,7 +2841,7 @@ def c16_rules(ctx):
     ctx.check(st == {'transaction_tracker::TransactionTracker::register_read_transaction'}, 'only|State->InMemoryState', 'tracker.state -> TM.state nests only in register_read_transaction (found %s)' % sorted(st))
 
     ctx.set_rule('C16.R1e', 'a second write-buffer stripe is only ever taken with try_lock')
-    ctx.callers_eq('Mutex::try_lock', {PCF + '::write', PCF + '::flush_buffered_pages'})
+    ctx.callers_eq('Mutex::try_lock', {PCF + '::write', PCF + '::flush_buffered_pages', '<sync::spin::Mutex as Debug>::fmt'}, allow_missing={'<sync::spin::Mutex as Debug>::fmt'})
 
     ctx.set_rule('C16.R3', 'no transaction-level lock is held across user code')
     n = 0
